@@ -545,6 +545,8 @@ def _pipe(spec, hashseed, scratch, extra_env=None, cwd=None, timeout=420):
     e.pop("PYTHONDONTWRITEBYTECODE", None)
     if extra_env:
         e.update(extra_env)
+        if "SOURCE_DATE_EPOCH" in extra_env:
+            e["VMON_EPOCH_OVERRIDE"] = "1"      # env.bootstrap() in the child would otherwise pin the epoch again
     try:
         r = subprocess.run([env.PYTHON, "-m", "vmon.c16_pipe", path], env=e, cwd=cwd or env.VERIF,
                            stdout=subprocess.PIPE, stderr=subprocess.PIPE, timeout=timeout)
